@@ -25,11 +25,15 @@ spec('inv_table', {'c': CT}, Bool,
      opaque=True)
 
 # the controller's view of IkeSa.process_message: the routing observers
-CONTRACTS['ikesa.IkeSa.process_message'].defines = {'delivered': 'delivered + 1', 'routed': 'self'}
-CONTRACTS['ikesa.IkeSa.process_message'].defines_exc = {'delivered': 'delivered + 1', 'routed': 'self'}
+# routed_secret: the cookie secret the routed IKE_SA holds when the datagram is handed to it (C18 arming)
+ghostvar('routed_secret', Opt(Bytes), observer=True)
+CONTRACTS['ikesa.IkeSa.process_message'].defines = {'delivered': 'delivered + 1', 'routed': 'self',
+                                                    'routed_secret': 'old(self.cookie_secret)'}
+CONTRACTS['ikesa.IkeSa.process_message'].defines_exc = {'delivered': 'delivered + 1', 'routed': 'self',
+                                                        'routed_secret': 'old(self.cookie_secret)'}
 
 c = contract('ikesacontroller.IkeSaController.dispatch_message',
-             params={'data': Bytes, 'my_addr': IP, 'peer_addr': IP}, returns=Opt(Bytes), props=['C16', 'C17'],
+             params={'data': Bytes, 'my_addr': IP, 'peer_addr': IP}, returns=Opt(Bytes), props=['C16', 'C17', 'C18'],
              requires=['live_ref(self)', 'inv_table(self)'],
              # proof steps where the routed IKE_SA becomes known: it satisfies the per-entry invariant (a table entry by
              # the table invariant, a new responder IKE_SA by its constructor's contract)
@@ -70,6 +74,17 @@ c = contract('ikesacontroller.IkeSaController.dispatch_message',
                  'C16,C17:live-stays': 'implies(delivered != old(delivered) and routed.state != 21 '
                                    'and not (routed.state == 0 and not routed.is_initiator), '
                                    'exists(lambda k: 0 <= k and k < len(self.ike_sas) and at(self.ike_sas, k) == routed))',
+                 # C18 arming (partial: the count is exact only at its two ends).  A new responder IKE_SA is handed the
+                 # cookie secret when it and every IKE_SA already in the table are half-open (state before ESTABLISHED)
+                 # and they are more than the threshold; with no more than the threshold in the table it is not
+                 'C18:armed-under-load': 'implies(hdr_is_init_request(data) and delivered != old(delivered) '
+                                         'and len(old(self.ike_sas)) + 1 > self.cookie_threshold '
+                                         'and forall(lambda k: implies(0 <= k and k < len(old(self.ike_sas)), '
+                                         '    old(at(self.ike_sas, k).state) < 10)), '
+                                         'routed_secret is not None and routed_secret == old(self.cookie_secret))',
+                 'C18:not-armed-below': 'implies(hdr_is_init_request(data) and delivered != old(delivered) '
+                                        'and len(old(self.ike_sas)) + 1 <= self.cookie_threshold, '
+                                        'routed_secret is None)',
                  # C17 isolation: no other IKE_SA of the table is touched (only the routed one and the successor it had)
                  'C17:isolation': 'forall(lambda k: implies(0 <= k and k < len(old(self.ike_sas)) '
                                   'and not (at(old(self.ike_sas), k) == routed) '
